@@ -1206,7 +1206,98 @@ func matchTableReadFromTheField(w *World, r *Report, prop string, inScope func(f
 		r.pass(rule, "the per-key index of match tables keeps every table", "", "every insert is guarded by a membership test that reports the second match field on a key")
 		return
 	}
-	valueUsed := func(v ssa.Value) bool {
+	// An accessor is a routine that hands a value of the index to its caller (`func (p *Packet) PairsFor(k) ([]MatchPair, bool)`): the
+	// value is used where the caller uses it - a caller that only tests presence does not take a table out of the index. accessor[fn]
+	// holds the result positions that carry an index value; a routine that is also called dynamically (function value, interface,
+	// bound-method wrapper) cannot be followed, its return counts as a use.
+	accessor := map[*ssa.Function]map[int]bool{}
+	followable := map[*ssa.Function]bool{}
+	var subjects []*ssa.Function
+	for _, fn := range w.srcFuncs {
+		if fn.Blocks != nil && w.isSubjectFunc(fn) {
+			subjects = append(subjects, fn)
+		}
+	}
+	sortFuncsByName(subjects)
+	isSubject := map[*ssa.Function]bool{}
+	for _, fn := range subjects {
+		isSubject[fn] = true
+	}
+	cg := w.CallGraph()
+	for _, fn := range subjects {
+		nd := cg.Nodes[fn]
+		ok := nd != nil && fn.Parent() == nil
+		if ok {
+			for _, e := range nd.In {
+				if e.Site == nil || e.Site.Common().StaticCallee() != fn || !isSubject[e.Caller.Func] {
+					ok = false
+				}
+			}
+		}
+		followable[fn] = ok
+	}
+	type indexValue struct {
+		v  ssa.Value
+		at ssa.Instruction
+	}
+	// the values of fn that come out of the index: looked up, ranged over, or returned by an accessor
+	indexValues := func(fn *ssa.Function) []indexValue {
+		var out []indexValue
+		forEachInstr(fn, func(_ *ssa.BasicBlock, ins ssa.Instruction) {
+			switch x := ins.(type) {
+			case *ssa.Lookup:
+				if !isIndex(x.X) {
+					return
+				}
+				if !x.CommaOk {
+					out = append(out, indexValue{x, ins})
+					return
+				}
+				for _, ref := range *x.Referrers() {
+					if ex, ok := ref.(*ssa.Extract); ok && ex.Index == 0 {
+						out = append(out, indexValue{ex, ins})
+					}
+				}
+			case *ssa.Range:
+				if !isIndex(x.X) {
+					return
+				}
+				for _, ref := range *x.Referrers() {
+					nx, ok := ref.(*ssa.Next)
+					if !ok || nx.Referrers() == nil {
+						continue
+					}
+					for _, r2 := range *nx.Referrers() {
+						if ex, ok := r2.(*ssa.Extract); ok && ex.Index == 2 {
+							out = append(out, indexValue{ex, ins})
+						}
+					}
+				}
+			case *ssa.Call:
+				g := x.Call.StaticCallee()
+				if g == nil || len(accessor[g]) == 0 {
+					return
+				}
+				if x.Call.Signature().Results().Len() == 1 {
+					if accessor[g][0] {
+						out = append(out, indexValue{x, ins})
+					}
+					return
+				}
+				if x.Referrers() == nil {
+					return
+				}
+				for _, ref := range *x.Referrers() {
+					if ex, ok := ref.(*ssa.Extract); ok && accessor[g][ex.Index] {
+						out = append(out, indexValue{ex, ins})
+					}
+				}
+			}
+		})
+		return out
+	}
+	// valueUsed: v is used for more than a presence test; handedOn receives the result positions through which v is returned
+	valueUsed := func(fn *ssa.Function, v ssa.Value, handedOn func(int)) bool {
 		if v.Referrers() == nil {
 			return false
 		}
@@ -1223,7 +1314,43 @@ func matchTableReadFromTheField(w *World, r *Report, prop string, inScope func(f
 					continue
 				}
 				return true
+			case *ssa.Return:
+				if !followable[fn] {
+					return true
+				}
+				for i, res := range x.Results {
+					if res == v && handedOn != nil {
+						handedOn(i)
+					}
+				}
 			default:
+				return true
+			}
+		}
+		return false
+	}
+	for changed := true; changed; {
+		changed = false
+		for _, fn := range subjects {
+			if !followable[fn] {
+				continue
+			}
+			for _, iv := range indexValues(fn) {
+				valueUsed(fn, iv.v, func(i int) {
+					if accessor[fn] == nil {
+						accessor[fn] = map[int]bool{}
+					}
+					if !accessor[fn][i] {
+						accessor[fn][i] = true
+						changed = true
+					}
+				})
+			}
+		}
+	}
+	isGeneratorType := func(name string) bool {
+		for _, g := range generators {
+			if g.Type == name {
 				return true
 			}
 		}
@@ -1231,61 +1358,26 @@ func matchTableReadFromTheField(w *World, r *Report, prop string, inScope func(f
 	}
 	seen := map[string]bool{}
 	n := 0
-	var fns []*ssa.Function
-	for _, fn := range w.srcFuncs {
-		if fn.Blocks != nil && w.isSubjectFunc(fn) && (inScope == nil || inScope(fn)) {
-			fns = append(fns, fn)
+	for _, fn := range subjects {
+		if inScope != nil && !inScope(fn) {
+			continue
 		}
-	}
-	sortFuncsByName(fns)
-	for _, fn := range fns {
 		var at ssa.Instruction
-		forEachInstr(fn, func(_ *ssa.BasicBlock, ins ssa.Instruction) {
-			if at != nil {
-				return
+		for _, iv := range indexValues(fn) {
+			if at == nil && valueUsed(fn, iv.v, nil) {
+				at = iv.at
 			}
-			switch x := ins.(type) {
-			case *ssa.Lookup:
-				if !isIndex(x.X) {
-					return
-				}
-				if !x.CommaOk {
-					if valueUsed(x) {
-						at = ins
-					}
-					return
-				}
-				for _, ref := range *x.Referrers() {
-					if ex, ok := ref.(*ssa.Extract); ok && ex.Index == 0 && valueUsed(ex) {
-						at = ins
-					}
-				}
-			case *ssa.Range:
-				if !isIndex(x.X) {
-					return
-				}
-				for _, ref := range *x.Referrers() {
-					nx, ok := ref.(*ssa.Next)
-					if !ok || nx.Referrers() == nil {
-						continue
-					}
-					for _, r2 := range *nx.Referrers() {
-						if ex, ok := r2.(*ssa.Extract); ok && ex.Index == 2 && valueUsed(ex) {
-							at = ins
-						}
-					}
-				}
-			}
-		})
+		}
 		if at == nil {
 			continue
 		}
 		owners := []string{recvNamedCore(fn)}
-		if owners[0] == "" {
-			// a shared helper: the finding belongs to the generators that use it (a known defect moved into a helper is the same defect)
+		if !isGeneratorType(owners[0]) {
+			// a shared helper or a routine of the model: the finding belongs to the generators that use it (a known defect moved into
+			// a helper is the same defect)
 			if gs := generatorsReaching(w, fn); len(gs) > 0 && !parsePhaseSet(w)[fn] {
 				owners = gs
-			} else {
+			} else if owners[0] == "" {
 				owners = []string{ownerPkgName(fn)}
 			}
 		}
